@@ -132,6 +132,7 @@ class TocFetcher:
         logger.debug('[%d]: Start fetching...', self.port)
         # Register callback in this class for the port
         self.cf.add_port_callback(self.port, self._new_packet_cb)
+        self.cf.disconnected.add_callback(self._disconnected)
 
         # Request the TOC CRC
         self.state = GET_TOC_INFO
@@ -144,9 +145,26 @@ class TocFetcher:
             pk.data = (CMD_TOC_INFO,)
             self.cf.send_packet(pk, expected_reply=(CMD_TOC_INFO,))
 
+    def _disconnected(self, uri):
+        """The link was lost or closed before the TOC was complete, stop fetching"""
+        self._stop_listening()
+        self.state = IDLE
+
+    def _stop_listening(self):
+        # May run on the dispatcher thread (download complete) and on the thread
+        # that reports the disconnect at the same time
+        try:
+            self.cf.disconnected.remove_callback(self._disconnected)
+        except ValueError:
+            pass
+        try:
+            self.cf.remove_port_callback(self.port, self._new_packet_cb)
+        except ValueError:
+            pass
+
     def _toc_fetch_finished(self):
         """Callback for when the TOC fetching is finished"""
-        self.cf.remove_port_callback(self.port, self._new_packet_cb)
+        self._stop_listening()
         logger.debug('[%d]: Done!', self.port)
         self.finished_callback()
 
